@@ -445,3 +445,18 @@ func (r *Run) OutcomeN(class string, n int64) {
 	r.outcomes[class] += n
 	r.mu.Unlock()
 }
+
+// TmpRoot is where real-filesystem executions create their directories: tmpfs when available.
+func TmpRoot() string {
+	if d := os.Getenv("VERIF_TMP"); d != "" {
+		return d
+	}
+	if fi, err := os.Stat("/dev/shm"); err == nil && fi.IsDir() {
+		if f, err := os.CreateTemp("/dev/shm", "probe"); err == nil {
+			f.Close()
+			os.Remove(f.Name())
+			return "/dev/shm"
+		}
+	}
+	return ""
+}
